@@ -124,10 +124,6 @@ def errStr : MErr → String
 
 def idxStr (l : List Nat) : String := if l.isEmpty then "-" else ",".intercalate (l.map toString)
 
-/-- names inside the property's quantifier: letters, digits, `-`, `_`, `.` -/
-def plainName (n : Str) : Bool :=
-  n.all fun c => (48 ≤ c && c ≤ 57) || (65 ≤ c && c ≤ 90) || (97 ≤ c && c ≤ 122) || c == 45 || c == 95 || c == 46
-
 def handleSess (s : Sess) (line : String) : Sess × String :=
   match words line with
   | "bl" :: rest => (s, handleBl rest)
